@@ -29,6 +29,7 @@ def main():
         r = sh("git", "-C", REPO, "apply", os.path.join(d, "patch.diff"))
         if r.returncode != 0:
             rows.append((n, prop, "patch does not apply", "", ""))
+            write_rows(rows[-1:])
             continue
         try:
             t0 = time.time()
@@ -43,27 +44,35 @@ def main():
                          first[:160].replace("|", "/"), f"{dt:.0f} s"))
         finally:
             sh("git", "-C", REPO, "checkout", "--", ".")
-            sh("git", "-C", VERIF, "checkout", "-q", "--", "evidence")
-            for f in os.listdir(os.path.join(VERIF, "replays")):
-                if f.endswith(".json"):
-                    os.unlink(os.path.join(VERIF, "replays", f))
-    path = os.path.join(VERIF, "seeded", "RESULTS.md")
-    merged = {}
-    if sys.argv[1:] and os.path.exists(path):
-        # a partial re-run updates its rows and keeps the others
-        for line in open(path).read().splitlines()[2:]:
-            cells = [c.strip() for c in line.strip().strip("|").split("|")]
-            if len(cells) >= 5:
-                merged[cells[0]] = tuple(cells[:5])
-    for row in rows:
-        merged[row[0]] = row
-    with open(path, "w") as f:
-        f.write("| seeded change | property | quick check of that property | first reported line | time |\n|---|---|---|---|---|\n")
-        for k in sorted(merged):
-            f.write("| " + " | ".join(merged[k]) + " |\n")
-    for row in rows:
-        print(" | ".join(row))
+            if REPO == "/repo":
+                sh("git", "-C", VERIF, "checkout", "-q", "--", "evidence")
+                for f in os.listdir(os.path.join(VERIF, "replays")):
+                    if f.endswith(".json"):
+                        os.unlink(os.path.join(VERIF, "replays", f))
+        write_rows(rows[-1:])
+        print(" | ".join(rows[-1]), flush=True)
     return 0 if all("exit 1" in r[2] for r in rows) else 1
+
+
+def write_rows(rows):
+    """merge rows into RESULTS.md (after every seed, under a lock: an interrupted or a second, parallel run - on its
+    own worktree via VERIF_REPO - loses nothing)"""
+    import fcntl
+    path = os.path.join(VERIF, "seeded", "RESULTS.md")
+    with open(path + ".lock", "w") as lock:
+        fcntl.flock(lock, fcntl.LOCK_EX)
+        merged = {}
+        if os.path.exists(path):
+            for line in open(path).read().splitlines()[2:]:
+                cells = [c.strip() for c in line.strip().strip("|").split("|")]
+                if len(cells) >= 5:
+                    merged[cells[0]] = tuple(cells[:5])
+        for row in rows:
+            merged[row[0]] = row
+        with open(path, "w") as f:
+            f.write("| seeded change | property | quick check of that property | first reported line | time |\n|---|---|---|---|---|\n")
+            for k in sorted(merged):
+                f.write("| " + " | ".join(merged[k]) + " |\n")
 
 
 if __name__ == "__main__":
